@@ -138,3 +138,16 @@ Lemma witness_stale_body :
   g_mixed (summ src_tree cfg_stale sched_stale) = false /\ g_reply_kind (summ src_tree cfg_stale sched_stale) = Some (KHijack, 503) /\
   g_ended (summ src_tree cfg_stale sched_stale) = true.
 Proof. vm_compute. repeat split; reflexivity. Qed.
+
+(* the seed's recycling discipline (doRetry no longer clears reuseBuffer; setupRetry clears it only when the failed attempt is
+   still open): the first attempt is reset by the connection, the retry is answered, the request ends normally - and gives its
+   objects back although the abandoned first attempt can still deliver a reply *)
+Definition src_seed_recycle : srcp := src_tree <| retry_clears_reuse := false |> <| setupretry_clears_reuse := true |>.
+Definition cfg_recycle : cfg := plain_cfg <| c_retry_on := true |>.
+Definition sched_recycle : list step :=
+  repeat Worker 12 ++ [Env (EvUpReset 0 RsTermination)] ++ drive ++ [Env (EvUpResp 1 200 false false)] ++ repeat Worker 8.
+Lemma witness_seed_recycle :
+  gave (final src_seed_recycle cfg_recycle sched_recycle) = true /\ abandoned (final src_seed_recycle cfg_recycle sched_recycle) = true /\
+  nnew (final src_seed_recycle cfg_recycle sched_recycle) = 2%nat /\
+  gave (final src_tree cfg_recycle sched_recycle) = false /\ g_ended (summ src_tree cfg_recycle sched_recycle) = true.
+Proof. vm_compute. repeat split; reflexivity. Qed.
